@@ -80,6 +80,27 @@ def reach : Pos → Path → Next
     | .pos q => reach q r
     | other => other
 
+/-! ### through `Optional[Dataclass]` values
+
+A mapping stored at an `Optional[Dataclass]` argument is validated by the per-class parser of the dataclass
+(`parse_object` on `get_class_parser(typehint)`): below it the keys are the keys of THAT parser.  `liftO` turns the
+position of such a value into the root position of its parser; `childO` / `reachO` are `child` / `reach` walking
+through such values as well (they agree with `child` / `reach` where no `optGroup` is involved). -/
+
+def liftO (p : Pos) : Pos :=
+  match p.node, p.val with
+  | .optGroup _ fs, .dict kvs => if leaflessKVs kvs then p else ⟨true, .group true fs, .dict kvs⟩
+  | _, _ => p
+
+def childO (p : Pos) (seg : Seg) : Next := child (liftO p) seg
+
+def reachO : Pos → Path → Next
+  | p, [] => .pos p
+  | p, seg :: r =>
+    match childO p seg with
+    | .pos q => reachO q r
+    | other => other
+
 /-- the top-level parser with its configuration -/
 def root (fs : Fields) (kvs : KV) : Pos := ⟨true, .group false fs, .dict kvs⟩
 
@@ -141,6 +162,7 @@ def isRequiredNode : Node → Bool
   | .leaf _ req _ => req
   | .classArg req _ _ => req
   | .listOf req _ => req
+  | .optGroup req _ => req
   | _ => false
 
 /-- the level of the parser `fs` (with its part `kvs` of the configuration) reached by the dotted key `ks`:
